@@ -100,7 +100,7 @@ func (p *parsedUDP) parseTail(pkt []byte, ipHdrLen int) bool {
 	}
 	// UDP `length` field: must equal IP-derived length-of-UDP-header-plus-payload.
 	udpLen := int(binary.BigEndian.Uint16(pkt[ipHdrLen+4 : ipHdrLen+6]))
-	if udpLen < 8 || udpLen > len(pkt)-ipHdrLen {
+	if udpLen < 8 || udpLen != len(pkt)-ipHdrLen {
 		return false
 	}
 	p.ipHdrLen = ipHdrLen
